@@ -7,12 +7,14 @@ Local Open Scope list_scope.
 
 (* ---- the order of tests found in the source is the order the model implements (re-proved on every run) *)
 Definition modelled_order : list string :=
-  ["subst-inputs"; "constant-value"; "shape-inference"; "opset-import"; "partial-evaluators"; "constant-keep";
-   "control-flow"; "non-deterministic"; "graph-input"; "all-inputs-constant"; "should-fold"; "black-list";
-   "input-size"; "always-fold"; "reference-evaluator"; "function-constant"; "initializer"; "register-initializer"]%string.
+  (app ("subst-inputs" :: (if skips_reference_attributes then ["reference-attribute"] else []))
+   ["constant-value"; "shape-inference"; "opset-import"; "partial-evaluators"; "constant-keep";
+    "control-flow"; "non-deterministic"; "graph-input"; "all-inputs-constant"; "should-fold"; "black-list";
+    "input-size"; "always-fold"; "reference-evaluator"; "function-constant"; "initializer"; "register-initializer"])%string.
 Lemma process_node_order_is_modelled : process_node_order = modelled_order.
 Proof. reflexivity. Qed.
-Lemma process_node_exits_are_modelled : process_node_returns = 19 /\ process_node_raises = 1.
+Definition modelled_returns : nat := if skips_reference_attributes then 20 else 19.
+Lemma process_node_exits_are_modelled : process_node_returns = modelled_returns /\ process_node_raises = 1.
 Proof. split; reflexivity. Qed.
 (* every registered evaluator lives in the default domain and is one the model knows *)
 Definition modelled_evaluators : list string :=
@@ -317,7 +319,9 @@ Section P.
 
   Lemma decide_keep (Hpe : pe_ok) isf st n r st2 : decide isf st n = DKeep V r st2 -> keep_state st n st2.
   Proof.
-    unfold Fold.decide. destruct (assoc (n_dom n) (c_opsets cfg)) as [ver|]; [|intro H; inversion H; subst; apply KSame, facts_eq_refl].
+    unfold Fold.decide, Fold.decide_variant.
+    destruct (skips_reference_attributes && has_ref_attr n); [intro H; inversion H; subst; apply KSame, facts_eq_refl|].
+    destruct (assoc (n_dom n) (c_opsets cfg)) as [ver|]; [|intro H; inversion H; subst; apply KSame, facts_eq_refl].
     destruct (registered (n_dom n) (n_op n) ver) eqn:R.
     - pose proof (registered_dom _ _ _ R) as D.
       destruct (String.eqb (n_op n) "Identity") eqn:EI.
@@ -353,7 +357,9 @@ Section P.
   Lemma decide_fold (Hpe : pe_ok) isf st n ste y v :
     decide isf st n = DFoldInit V ste y v \/ decide isf st n = DFoldConst V ste y v -> fold_conditions st n y v /\ keep_state st n ste.
   Proof.
-    unfold Fold.decide. destruct (assoc (n_dom n) (c_opsets cfg)) as [ver|]; [|intros [H|H]; discriminate].
+    unfold Fold.decide, Fold.decide_variant.
+    destruct (skips_reference_attributes && has_ref_attr n); [intros [H|H]; discriminate|].
+    destruct (assoc (n_dom n) (c_opsets cfg)) as [ver|]; [|intros [H|H]; discriminate].
     assert (G : forall st', (forall x, assoc x (s_const V st') = assoc x (s_const V st)) ->
                 generic_fold isf st' n = DFoldInit V ste y v \/ generic_fold isf st' n = DFoldConst V ste y v ->
                 fold_conditions st n y v /\ ste = st').
@@ -410,7 +416,8 @@ Section P.
 
   Lemma decide_nodes isf st n st2 R : decide isf st n = DNodes V st2 R -> pe st n = PRepl V st2 R.
   Proof.
-    unfold Fold.decide. destruct (assoc (n_dom n) (c_opsets cfg)) as [ver|]; [|discriminate].
+    unfold Fold.decide, Fold.decide_variant. destruct (skips_reference_attributes && has_ref_attr n); [discriminate|].
+    destruct (assoc (n_dom n) (c_opsets cfg)) as [ver|]; [|discriminate].
     assert (G : forall st', generic_fold isf st' n <> DNodes V st2 R).
     { intros st' H. destruct (generic_fold_cases isf st' n) as [[r' G]|[y' [v' [[G|G] _]]]]; rewrite G in H; discriminate. }
     destruct (registered (n_dom n) (n_op n) ver); [|intro H; exfalso; exact (G _ H)].
@@ -424,7 +431,8 @@ Section P.
   Lemma decide_inline isf st n st2 R moved : decide isf st n = DInline V st2 R moved ->
     pe_if st n = PInline V st2 R moved /\ n_op n = "If"%string /\ n_dom n = ""%string.
   Proof.
-    unfold Fold.decide. destruct (assoc (n_dom n) (c_opsets cfg)) as [ver|]; [|discriminate].
+    unfold Fold.decide, Fold.decide_variant. destruct (skips_reference_attributes && has_ref_attr n); [discriminate|].
+    destruct (assoc (n_dom n) (c_opsets cfg)) as [ver|]; [|discriminate].
     assert (G : forall st', generic_fold isf st' n <> DInline V st2 R moved).
     { intros st' H. destruct (generic_fold_cases isf st' n) as [[r' G]|[y' [v' [[G|G] _]]]]; rewrite G in H; discriminate. }
     destruct (registered (n_dom n) (n_op n) ver) eqn:Rg; [|intro H; exfalso; exact (G _ H)].
@@ -438,7 +446,8 @@ Section P.
   (* a Constant node is always kept *)
   Lemma decide_constant isf st n : is_onnx n "Constant" = true -> exists r, decide isf st n = DKeep V r st.
   Proof.
-    intro C. destruct (is_onnx_spec _ _ C) as [D O]. unfold Fold.decide. rewrite D, O.
+    intro C. destruct (is_onnx_spec _ _ C) as [D O]. unfold Fold.decide, Fold.decide_variant.
+    destruct (skips_reference_attributes && has_ref_attr n); [eexists; reflexivity|]. rewrite D, O.
     destruct (assoc ""%string (c_opsets cfg)); [|eexists; reflexivity].
     rewrite constant_not_registered. unfold Fold.generic_fold. rewrite C. eexists; reflexivity.
   Qed.
